@@ -148,6 +148,24 @@ def apply_body_rules(src, lo, hi, ed, rules):
             rules["R2"] = rules.get("R2", 0) + 1
             i += 5
             continue
+        # R8 (paths): `super::a::b::item` / `crate::a::Item` -> `item` / `Item` (module prefixes are
+        # dropped because every extracted item lives in the root of the generated crate)
+        if t.kind == IDENT and t.text in ("super", "crate") and src.is_p(i + 1, ":") and src.is_p(i + 2, ":") \
+                and not src.is_p(i - 1, ":"):
+            q = i
+            while q + 2 < hi and src.is_id(q) and src.is_p(q + 1, ":") and src.is_p(q + 2, ":") and src.is_id(q + 3) \
+                    and (s[q].text in ("super", "crate") or (s[q].text.islower() and src.is_p(q + 4, ":") and src.is_p(q + 5, ":"))
+                         or (s[q].text.islower() and s[q].text not in ("self",) and not s[q + 3].text[0].isupper() and False)):
+                q += 3
+            # also strip one lower-case module segment directly in front of a lower-case item (utils::f)
+            while q + 3 < hi and src.is_id(q) and s[q].text.islower() and src.is_p(q + 1, ":") and src.is_p(q + 2, ":") \
+                    and src.is_id(q + 3) and (src.is_p(q + 4, "(") or (src.is_p(q + 4, ":") and src.is_p(q + 5, ":"))):
+                q += 3
+            if q > i:
+                ed.replace(t.start, s[q].start, "", 5)
+                rules["R8"] = rules.get("R8", 0) + 1
+                i = q
+                continue
         # R2 (error construction): io::Error::new(kind, text) -> vx_io_error_new(kind, text)
         if t.kind == IDENT and t.text == "io" and src.is_p(i + 1, ":") and src.is_p(i + 2, ":") and src.is_id(i + 3, "Error") \
                 and src.is_p(i + 4, ":") and src.is_p(i + 5, ":") and src.is_id(i + 6, "new") and src.is_p(i + 7, "("):
